@@ -234,6 +234,8 @@ pub trait DynReader {
     /// The reader's own `copy_to` (its specialisation if it has one)
     fn copy_to(&mut self, w: &mut dyn DynWriter, n: u64) -> R<()>;
     fn counter(&self) -> Option<u64>;
+    /// consume the reader through the library's `into_inner` (where it has one) and drop the backend
+    fn consume(self: Box<Self>) -> bool;
     fn peek_limit(&self) -> usize;
     fn word_bits(&self) -> usize;
     fn buffered(&self) -> bool;
@@ -372,6 +374,7 @@ pub struct ROpts<BR> {
     pub io_read: Option<fn(&mut BR, &mut [u8]) -> io::Result<usize>>,
     pub clone: Option<fn(&BR) -> BR>,
     pub counter: Option<fn(&BR) -> u64>,
+    pub into_inner: Option<fn(BR)>,
 }
 impl<BR> Clone for ROpts<BR> {
     fn clone(&self) -> Self {
@@ -381,7 +384,7 @@ impl<BR> Clone for ROpts<BR> {
 impl<BR> Copy for ROpts<BR> {}
 impl<BR> ROpts<BR> {
     pub fn none() -> Self {
-        Self { bit_pos: None, set_bit_pos: None, io_read: None, clone: None, counter: None }
+        Self { bit_pos: None, set_bit_pos: None, io_read: None, clone: None, counter: None, into_inner: None }
     }
 }
 
@@ -396,6 +399,13 @@ pub fn f_io_read<BR: io::Read>(r: &mut BR, buf: &mut [u8]) -> io::Result<usize> 
 }
 pub fn f_clone<BR: Clone>(r: &BR) -> BR {
     r.clone()
+}
+pub fn f_into_inner<E: Endianness, WR: WordRead, RP: dsi_bitstream::codes::params::ReadParams>(r: BufBitReader<E, WR, RP>)
+where
+    WR::Word: common_traits::DoubleType,
+{
+    let b = r.into_inner().unwrap();
+    drop(b);
 }
 
 #[derive(Clone)]
@@ -497,6 +507,16 @@ impl<E: EnSel, BR: CodesRead<E> + 'static> DynReader for RBox<E, BR> {
     }
     fn counter(&self) -> Option<u64> {
         self.opts.counter.map(|f| f(&self.r))
+    }
+    fn consume(self: Box<Self>) -> bool {
+        let this = *self;
+        match this.opts.into_inner {
+            Some(f) => {
+                f(this.r);
+                true
+            }
+            None => false,
+        }
     }
     fn peek_limit(&self) -> usize {
         self.meta.peek_limit
@@ -783,44 +803,45 @@ macro_rules! mk_reader {
     (@cap $o:ident, seek) => { $o.bit_pos = Some(f_bit_pos); $o.set_bit_pos = Some(f_set_bit_pos); };
     (@cap $o:ident, io) => { $o.io_read = Some(f_io_read); };
     (@cap $o:ident, clone) => { $o.clone = Some(f_clone); };
+    (@cap $o:ident, inner) => { $o.into_inner = Some(f_into_inner); };
 }
 
 macro_rules! reader_backends {
-    ($E:ty, $W:ty, $ctor:ident, $cfg:expr, $image:expr) => {{
+    ($E:ty, $W:ty, $ctor:ident, $cfg:expr, $image:expr; $($x:ident),*) => {{
         let cfg: RCfg = $cfg;
         let image: &[u8] = $image;
         let desc = cfg.name();
         match cfg.be {
             RBackend::RecZ | RBackend::RecS => {
                 let (b, log) = RecWordRead::<$W>::new(image, cfg.be == RBackend::RecZ);
-                (mk_reader!($E, $ctor::<$E, _>::new(b), cfg.kind, desc; seek, io, clone), Some(log))
+                (mk_reader!($E, $ctor::<$E, _>::new(b), cfg.kind, desc; seek, io, clone $(, $x)*), Some(log))
             }
             RBackend::MemZ => {
                 let words: Vec<$W> = words_from_bytes(image);
                 // the library's zero-extended reader, behind a call counter (it can never report an error,
                 // so a reader that runs away over the extension would otherwise spin forever)
                 let budget = 50_000 + 64 * words.len() as u64;
-                (mk_reader!($E, $ctor::<$E, _>::new(Budgeted::new(MemWordReader::new(words), budget)), cfg.kind, desc; seek, io, clone), None)
+                (mk_reader!($E, $ctor::<$E, _>::new(Budgeted::new(MemWordReader::new(words), budget)), cfg.kind, desc; seek, io, clone $(, $x)*), None)
             }
             RBackend::MemS => {
                 let words: Vec<$W> = words_from_bytes(image);
-                (mk_reader!($E, $ctor::<$E, _>::new(MemWordReader::new_strict(words)), cfg.kind, desc; seek, io, clone), None)
+                (mk_reader!($E, $ctor::<$E, _>::new(MemWordReader::new_strict(words)), cfg.kind, desc; seek, io, clone $(, $x)*), None)
             }
             RBackend::WVec => {
                 let words: Vec<$W> = words_from_bytes(image);
-                (mk_reader!($E, $ctor::<$E, _>::new(MemWordWriterVec::new(words)), cfg.kind, desc; seek, io), None)
+                (mk_reader!($E, $ctor::<$E, _>::new(MemWordWriterVec::new(words)), cfg.kind, desc; seek, io $(, $x)*), None)
             }
             RBackend::WSlice => {
                 let words: Vec<$W> = words_from_bytes(image);
-                (mk_reader!($E, $ctor::<$E, _>::new(MemWordWriterSlice::new(words)), cfg.kind, desc; seek, io), None)
+                (mk_reader!($E, $ctor::<$E, _>::new(MemWordWriterSlice::new(words)), cfg.kind, desc; seek, io $(, $x)*), None)
             }
             RBackend::AdCursor => {
                 let c = io::Cursor::new(image.to_vec());
-                (mk_reader!($E, $ctor::<$E, _>::new(WordAdapter::<$W, _>::new(c)), cfg.kind, desc; seek, io, clone), None)
+                (mk_reader!($E, $ctor::<$E, _>::new(WordAdapter::<$W, _>::new(c)), cfg.kind, desc; seek, io, clone $(, $x)*), None)
             }
             RBackend::AdBufReader => {
                 let c = io::BufReader::with_capacity(5, io::Cursor::new(image.to_vec()));
-                (mk_reader!($E, $ctor::<$E, _>::new(WordAdapter::<$W, _>::new(c)), cfg.kind, desc; seek, io), None)
+                (mk_reader!($E, $ctor::<$E, _>::new(WordAdapter::<$W, _>::new(c)), cfg.kind, desc; seek, io $(, $x)*), None)
             }
         }
     }};
@@ -830,16 +851,16 @@ macro_rules! reader_backends {
 /// must be a multiple of the reader's word size).
 pub fn make_reader(cfg: RCfg, image: &[u8]) -> ReaderHandle {
     let (r, log) = match (cfg.e, cfg.kind) {
-        (En::BE, RKind::Buf8) => reader_backends!(BE, u8, BufBitReader, cfg, image),
-        (En::BE, RKind::Buf16) => reader_backends!(BE, u16, BufBitReader, cfg, image),
-        (En::BE, RKind::Buf32) => reader_backends!(BE, u32, BufBitReader, cfg, image),
-        (En::BE, RKind::Buf64) => reader_backends!(BE, u64, BufBitReader, cfg, image),
-        (En::BE, RKind::Unbuf) => reader_backends!(BE, u64, BitReader, cfg, image),
-        (En::LE, RKind::Buf8) => reader_backends!(LE, u8, BufBitReader, cfg, image),
-        (En::LE, RKind::Buf16) => reader_backends!(LE, u16, BufBitReader, cfg, image),
-        (En::LE, RKind::Buf32) => reader_backends!(LE, u32, BufBitReader, cfg, image),
-        (En::LE, RKind::Buf64) => reader_backends!(LE, u64, BufBitReader, cfg, image),
-        (En::LE, RKind::Unbuf) => reader_backends!(LE, u64, BitReader, cfg, image),
+        (En::BE, RKind::Buf8) => reader_backends!(BE, u8, BufBitReader, cfg, image; inner),
+        (En::BE, RKind::Buf16) => reader_backends!(BE, u16, BufBitReader, cfg, image; inner),
+        (En::BE, RKind::Buf32) => reader_backends!(BE, u32, BufBitReader, cfg, image; inner),
+        (En::BE, RKind::Buf64) => reader_backends!(BE, u64, BufBitReader, cfg, image; inner),
+        (En::BE, RKind::Unbuf) => reader_backends!(BE, u64, BitReader, cfg, image;),
+        (En::LE, RKind::Buf8) => reader_backends!(LE, u8, BufBitReader, cfg, image; inner),
+        (En::LE, RKind::Buf16) => reader_backends!(LE, u16, BufBitReader, cfg, image; inner),
+        (En::LE, RKind::Buf32) => reader_backends!(LE, u32, BufBitReader, cfg, image; inner),
+        (En::LE, RKind::Buf64) => reader_backends!(LE, u64, BufBitReader, cfg, image; inner),
+        (En::LE, RKind::Unbuf) => reader_backends!(LE, u64, BitReader, cfg, image;),
     };
     ReaderHandle { r, log, cfg }
 }
